@@ -1,7 +1,12 @@
 //! verif-harness: runs /repo's implementation on generated cases and prints one canonical
 //! line per observation. The extracted Coq model (ocaml/driver) re-computes every line.
+mod abi;
+mod bitboard;
 mod rng;
 mod score;
+mod tables;
+mod text;
+mod tracing;
 
 use std::io::Write;
 
@@ -18,15 +23,38 @@ fn main() {
     let n: usize = args.get(2).and_then(|s| s.parse().ok()).unwrap_or(0);
     let seed = rng::seed_from_env();
     let mut rng = rng::Rng::new(seed);
+    // panics of the implementation are caught and reported as TRAP results; keep stderr quiet
+    std::panic::set_hook(Box::new(|i| eprintln!("panic: {}", i.to_string().replace('\n', " "))));
     let stdout = std::io::stdout();
     let mut out = std::io::BufWriter::with_capacity(1 << 20, stdout.lock());
     match args[1].as_str() {
         "score" => score::run(&mut out, &mut rng, n),
+        "tables" => {
+            tables::geometry(&mut out);
+            tables::pawns(&mut out, &mut rng, n);
+        }
+        "magic" => tables::magic(&mut out, &mut rng, n),
+        "zobrist" => tables::zobrist(&mut out),
+        "bitboard" => bitboard::run(&mut out, &mut rng, n),
+        "text" => {
+            let stride: u64 = args.get(3).and_then(|s| s.parse().ok()).unwrap_or(8);
+            text::run(&mut out, &mut rng, stride, n)
+        }
+        "abi" => abi::run(&mut out, &mut rng, n),
+        "tracing" => {
+            let ex: usize = args.get(3).and_then(|s| s.parse().ok()).unwrap_or(2);
+            tracing::run(&mut out, &mut rng, ex, n)
+        }
         "replay" => {
             let line = args.get(2).cloned().unwrap_or_default();
             let f: Vec<&str> = line.split('\t').collect();
             match f[0] {
                 "SC" => score::replay(&mut out, &f),
+                "TB" | "TP" | "TG" | "TC" | "PW" | "MG" | "ZK" => tables::replay(&mut out, &f),
+                "BU" | "BP" | "BF" | "BS" | "BB" | "BN" | "BC" => bitboard::replay(&mut out, &f),
+                "TX" | "IT" | "TS" | "TM" | "PU" | "PS" | "PF" | "PD" | "PN" => text::replay(&mut out, &f),
+                "AB" | "AS" => abi::run(&mut out, &mut rng, 0),
+                "TR" => tracing::replay(&mut out, &f),
                 k => {
                     eprintln!("replay: unknown kind {k}");
                     std::process::exit(2)
